@@ -376,6 +376,43 @@ class C05(RenderProp):
         return case.get("nattrs", 0) >= 2 and not case.get("_declined")
 
 
+class C20(RenderProp):
+    id = "C20"
+    n_quick = 2000
+    n_thorough = 30000
+    required_theorems = ["C20_push", "C20_pop", "C20_shift", "C20_unshift", "C20_splice", "C20_slice", "C20_length", "C20_alias_frame", "C20_splice_result_stable"]
+    rule = ("random call sequences (1-12 quick / 1-40 thorough) of push/pop/shift/unshift/sort/splice(start)/slice(start)/indexOf/index/join/length over up to 5 array "
+            "variables with aliasing (var b = a) and kept results (var t = a.splice(k), var c = a.slice(k), var p = s.split(d)), number or string elements, in-range "
+            "arguments, plus length/charAt/indexOf/slice/split/toUpperCase/toLowerCase on an ASCII string; every variable's content and length printed after every step. "
+            "Oracle: ECMAScript reference with arrays as heap objects. Non-trivial: >= 3 steps; distinct by case.")
+
+    def nontrivial(self, case, impl):
+        return case.get("steps", 0) >= 3 and not case.get("_declined")
+
+
+class C12(RenderProp):
+    id = "C12"
+    n_quick = 3000
+    n_thorough = 45000
+    required_theorems = ["C12_string_roundtrip", "C12_string_literal"]
+    rule = ("random JSON-shaped values (depth <= 4 quick / 7 thorough): objects with lower-case-initial keys (tails with quotes, angle brackets, blanks, non-ASCII), arrays, "
+            "strings from an alphabet of quotes, backslash, slash, < > & ', all control characters, DEL, U+2028/9, multi-byte text, markup fragments; integers up to 2^53, "
+            "short dyadic fractions, booleans, null; through `!= JSON.stringify(x)`, `!= json(x)` and stringify(parse(stringify(x))). Oracle: Go encoding/json decodes the "
+            "REAL output and reflect.DeepEqual with the source value; the re-parse text equals the first text. Non-trivial: value is a container; distinct by case.")
+
+    def compare(self, case, impl, model, spec):
+        corr, _, detail = RenderProp.compare(self, case, impl, model, None)
+        prop = None
+        if isinstance(impl, dict):
+            prop = impl.get("class") == "ok" and bool(impl.get("valid")) and bool(impl.get("decodes_equal"))
+            if not prop:
+                detail += " | valid=%s decodes_equal=%s x=%s" % (impl.get("valid"), impl.get("decodes_equal"), json.dumps(case["x"])[:200])
+        return corr, prop, detail
+
+    def nontrivial(self, case, impl):
+        return isinstance(case["x"], (dict, list)) and not case.get("_declined")
+
+
 WS = " \t\r\n"
 
 
@@ -434,4 +471,4 @@ class C13(Prop):
         return "%s/%s" % (case.get("from"), out_of((impl or {}).get("prod"))[0])
 
 
-PROPS = {p.id: p for p in [C01(), C02(), C04(), C05(), C06(), C13(), C17(), C18()]}
+PROPS = {p.id: p for p in [C01(), C02(), C04(), C05(), C06(), C13(), C17(), C12(), C18(), C20()]}
